@@ -1048,6 +1048,15 @@ pub fn run_exec(case: &Case, prefix: &[u8], menu: Menu) -> Exec {
             }
         }
     }
+    if let Some((rop, given, left, limit)) = w.restarted.clone() {
+        viol.push((
+            format!("C16:{rop}:timeout-restarted-after-EINTR"),
+            format!(
+                "{rop}: the wait has a limit of {limit} ns; after ppoll was interrupted (EINTR) with {left} ns left — the kernel wrote that back through the time-out pointer — \
+                 the retry asked for {given} ns: the model time waited in one operation exceeds its limit, under repeated signals the call never reports Timeout"
+            ),
+        ));
+    }
     if let Some((wop, ev, need)) = w.wrong_events.clone() {
         let nm = |e: i16| {
             let mut v = Vec::new();
